@@ -189,4 +189,9 @@ def generate_jaqal_value(val):
     ):
         return val.name
     elif isinstance(val, float) or isinstance(val, int):
-        return str(val)
+        text = str(val)
+        if "e" in text and "." not in text:
+            # A Jaqal number needs a decimal point, which Python omits
+            # from some values in exponent form: 1e-06 -> 1.0e-06
+            text = text.replace("e", ".0e")
+        return text
